@@ -248,6 +248,12 @@ pub fn run(case: &Value, ctx: &Ctx) -> Outcome {
                     k += 1;
                     let r = cli::sfs(ctx, args, Some(&ext));
                     out.check(!r.ok() && !r.panicked() && r.stdout.is_empty(), || format!("npy/damage/cli-ext-{}/{fill}", args[0]), || json!({"extra": e, "fill": fill, "code": r.code, "stderr": r.stderr, "stdout_len": r.stdout.len()}));
+                    // the intact file arrives first and the extra bytes in a later burst (a reader that stops at the first short
+                    // read would have seen a valid file by then)
+                    if k % 7 == 0 {
+                        let r = cli::sfs_delayed(ctx, args, &ext, bytes.len());
+                        out.check(!r.ok() && !r.panicked() && r.stdout.is_empty(), || format!("npy/damage/cli-ext-late-{}/{fill}", args[0]), || json!({"extra": e, "fill": fill, "code": r.code, "stderr": r.stderr, "stdout_len": r.stdout.len()}));
+                    }
                 }
             }
             let _ = Scs::from_zeros(1);
